@@ -529,10 +529,56 @@ def enum_converting_forms(chk, S):
             chk.violation('C08.roundtrip', 'the Enum mix-in member %r is not printed as a call of its class: %r' % (desc, out), desc)
 
 
+def short_lived_subclasses(chk):
+    """Subclasses that are defined, printed and dropped (collected), round after round: an instance is printed as a call of
+    ITS class whatever classes lived - perhaps at the same address - before."""
+    import gc
+    import types
+    q = chk.tier == 'quick'
+    samples = {str: ['some words here', ''], bytes: [b'bytes here', b''], list: [[1, 2]], tuple: [(1, 'a')], set: [{1}],
+               frozenset: [frozenset([2])], dict: [{'k': 1}], int: [7], float: [1.5]}
+    n = 0
+    for rnd in range(25 if q else 300):
+        ns = types.SimpleNamespace()
+        classes = []
+        for base, vals in samples.items():
+            body = {'__module__': 'ephemeral'}
+            if rnd % 2:
+                body['__repr__'] = lambda self: 'custom repr'
+            cls = type('R%d_%s' % (rnd, base.__name__), (base,), body)
+            setattr(ns, cls.__name__, cls)
+            classes.append((cls, base, vals))
+        for cls, base, vals in classes:
+            for b in vals:
+                inst = cls(b)
+                for w in (79, 12):
+                    n += 1
+                    desc = {'class': 'ephemeral.' + cls.__name__, 'base_value': repr(b), 'round': rnd, 'width': w}
+                    try:
+                        with warnings.catch_warnings():
+                            warnings.simplefilter('ignore')
+                            out = P.pformat([inst], width=w)
+                        back = eval(out, {'ephemeral': ns, '__builtins__': {}})
+                        ok = (type(back) is list and len(back) == 1 and type(back[0]) is cls and base(back[0]) == base(inst))
+                        err = None
+                    except Exception as e:  # noqa
+                        ok, err, out = False, repr(e), locals().get('out', '')
+                    if not ok:
+                        chk.violation('C08.roundtrip', 'an instance of the short-lived subclass %s (round %d) printed as %r does not '
+                                      'evaluate to an equal instance of that class%s' % (desc['class'], rnd, out, ': ' + err if err else ''),
+                                      dict(desc, output=out))
+                    chk.nontrivial(('ephemeral', cls.__name__, repr(b), w))
+        del classes, ns, cls, inst
+        gc.collect()
+    chk.cov['evaluations'] += n
+    chk.stage('short-lived-subclasses', prints=n)
+
+
 def check_c08(chk, args):
     import verif_subs as S
     q = chk.tier == 'quick'
     rng = chk.rng
+    short_lived_subclasses(chk)
     subs = sorted(set(S.ALL.values()))
     env = {'verif_subs': S}
 
